@@ -31,6 +31,8 @@ MOVES = ("full_shuffle", "swapRandChargeRes", "permute_block_swap", "permute_clu
 
 
 def run(ck, prog):
+    from props.common import check_memos
+    ck.attempt(check_memos, ck, prog)
     ck.explanation = (
         "The body of the main loop of run_normal_WL is executed symbolically once, for all paths: moves, kappa, the bin index, "
         "random draws and the flat check are uninterpreted functions of their arguments, g and H are arrays whose stores are "
@@ -42,6 +44,7 @@ def run(ck, prog):
     ck.attempt(_main_loop, ck, prog)
     ck.attempt(_flatcheck, ck, prog)
     ck.attempt(_geometry, ck, prog)
+    ck.attempt(_init_geometry, ck, prog)
     ck.attempt(_outputs, ck, prog)
     ck.attempt(_route, ck, prog)
 
@@ -334,3 +337,51 @@ def _route(ck, prog):
     except Undecided as e:
         got = str(e)
     ck.ob("DT-route", WL_PATH + ":" + f.qual, got == "NORMAL-RUN", expected="WL_type 'NORMAL' runs run_normal_WL", found=got, slot="normal", where=f.loc())
+
+
+def _init_geometry(ck, prog):
+    """NORMAL mode: the bin count tiles [0,1] with the requested bin width - round(1/width), never truncated - and the relevant
+    range starts at the bin whose centre is nearest to binmin + width/2 and spans nbins_target bins"""
+    f = prog.fn(WL, "WangLandauMachine.__init__")
+    construct = WL_PATH + ":" + f.qual
+    ev = Evaluator(prog, positive=())
+    ev.model_ctors = True
+    ev.skip_calls = {"print", "setDotFreq"}
+    ev.opaque_calls[WL + ":WangLandauMachine.getBinCenters"] = lambda b: Rat.atom("CENTRES")
+    ev.opaque_calls[WL + ":WangLandauMachine.setDotFreq"] = lambda b: None
+    fr = _Frame(f, 0)
+    env = {"self": ObjV("WangLandauMachine"), "nbins": Rat.atom("nb"), "binmin": Rat.atom("bmin"), "binmax": Rat.atom("bmax"), "WL_type": "NORMAL"}
+    # the else-branch of `if WL_type == 'ZOOM'`
+    branch = None
+    for s in f.body():
+        if isinstance(s, ast.If) and "WL_type" in unparse(s.test) and "ZOOM" in unparse(s.test):
+            branch = s.orelse
+    if branch is None:
+        raise Undecided("WangLandauMachine.__init__: NORMAL/ZOOM branch not found", f.loc())
+    pre = []
+    for s in f.body():
+        if isinstance(s, ast.Assign) and is_self_attr(s.targets[0], "nbins_target"):
+            pre.append(s)
+    paths = ev.exec_block(pre + list(branch), [Path([], "live", None, env)], fr)
+    if len(paths) != 1:
+        raise Undecided("NORMAL-mode initialisation branches", f.loc())
+    e = paths[0].env
+    nt = fatom("int", Rat.atom("nb"))
+    width = (Rat.atom("bmax") - Rat.atom("bmin")) / nt
+    got = e.get("@self.nbins_actual")
+    want_ok = [fatom("int", fatom("round", Rat.const(1) / width)), fatom("round", Rat.const(1) / width)]
+    trunc = [fatom("int", Rat.const(1) / width), fatom("floor", Rat.const(1) / width)]
+    if isinstance(got, Rat) and any(got.equals(w) for w in want_ok):
+        ok = True
+    elif isinstance(got, Rat) and any(got.equals(w) for w in trunc):
+        ok = False
+    else:
+        raise Undecided("nbins_actual = %r: neither the rounded nor the truncated quotient" % (got,), f.loc())
+    ck.ob("ALG-bins", construct, ok, expected="nbins_actual = int(round(1 / binWidth))", found=repr(got), slot="bin-count", where=f.loc(),
+          note="1/binWidth is a float quotient that lands just below an integer for many (binmin, binmax, nbins): truncation loses a bin and shifts the relevant range")
+    rmin, rmax = e.get("@self.relevant_min"), e.get("@self.relevant_max")
+    from lcsa.sym import abs_atom
+    want_min = fatom("argmin", abs_atom(Rat.atom("CENTRES") - (Rat.atom("bmin") + width / Rat.const(2))))
+    ok2 = isinstance(rmin, Rat) and rmin.equals(want_min) and isinstance(rmax, Rat) and rmax.equals(rmin + nt - Rat.const(1))
+    ck.ob("ALG-bins", construct, ok2, expected="relevant_min = bin nearest to binmin + width/2 ; relevant_max = relevant_min + nbins_target - 1",
+          found={"relevant_min": repr(rmin), "relevant_max": repr(rmax)}, slot="relevant-range", where=f.loc())
